@@ -314,6 +314,11 @@ class CCodeGenerator:
         if bits:
             mem = mem + (bits_to_bytes(bits),)
             bits.clear()
+
+        # Fill the tail padding:
+        tail_padding = self.sizeof(typ) - self.mem_len(mem)
+        if tail_padding > 0:
+            mem = mem + (bytes([0] * tail_padding),)
         return mem
 
     def mem_len(self, mem):
